@@ -15,6 +15,12 @@ HERE = os.path.dirname(os.path.abspath(__file__))
 VERIF = os.path.dirname(HERE)
 REPO = os.environ.get("DSIM_REPO", "/repo")
 NPROC = int(os.environ.get("DSIM_WORKERS", str(os.cpu_count() or 4)))
+# When trying seeded changes (dsim/try_mutant.sh) evidence and replay files must not
+# overwrite those of the unchanged tree.
+if os.environ.get("DSIM_KEEP_EVIDENCE"):
+    OUT_BASE = os.path.join(os.environ.get("TMPDIR", "/tmp"), "dsim-mutant-out")
+else:
+    OUT_BASE = VERIF
 
 ENV = dict(os.environ, GOFLAGS="-mod=mod", GOPROXY="off", GOSUMDB="off", GOTOOLCHAIN="local")
 
@@ -187,7 +193,7 @@ def _check(prop, tier, seed, scr, t0):
                         il_nontrivial.add(key)
         per_scenario[scenario] = sruns
     # ---- verdicts
-    os.makedirs(os.path.join(VERIF, "replays"), exist_ok=True)
+    os.makedirs(os.path.join(OUT_BASE, "replays"), exist_ok=True)
     violations, known_hits, trouble = [], {}, []
     seen_rule = {}
     for f in failures:
@@ -200,7 +206,7 @@ def _check(prop, tier, seed, scr, t0):
             seen_rule[key]["count"] += 1
             continue
         name = "%s-%d-%d-%s-%s.json" % (prop, seed, f["run"], f["scenario"], re.sub(r"[^A-Za-z0-9]+", "_", f["rule"]))
-        path = os.path.join(VERIF, "replays", name)
+        path = os.path.join(OUT_BASE, "replays", name)
         rf = {"property": prop, "scenario": f["scenario"], "tier": tier, "rule": f["rule"], "msg": f["msg"], "seed": seed,
               "run": f["run"], "run_seed": f["run_seed"], "tape": f["tape"], "orig_tape_len": f["orig_tape_len"],
               "minimise_runs": f["minimise_runs"], "digest": f["digest"], "all_violations": f["all"], "trace": f["trace"],
@@ -260,8 +266,8 @@ def _check(prop, tier, seed, scr, t0):
         "wall_s": round(wall, 2),
         "violations": len(violations),
     }
-    os.makedirs(os.path.join(VERIF, "evidence"), exist_ok=True)
-    json.dump(ev, open(os.path.join(VERIF, "evidence", prop + ".json"), "w"), indent=1)
+    os.makedirs(os.path.join(OUT_BASE, "evidence"), exist_ok=True)
+    json.dump(ev, open(os.path.join(OUT_BASE, "evidence", prop + ".json"), "w"), indent=1)
     # ---- report
     print("dsim %s %s seed=%d: %d runs, %d steps, %.0f s simulated, %d distinct interleavings (%d non-trivial), %.1f s wall"
           % (prop, tier, seed, agg["runs"], agg["steps"], agg["virtual_ns"] / 1e9, len(il_all), len(il_nontrivial), wall))
